@@ -396,6 +396,8 @@ def run(ctx):
                         witness=dn.path_to(n_, s_) if n_ is not None else None, exit=rm.exit_kind(n_) if n_ is not None else None))
     # ---- C18.i the default lookup is an observation point of the incomplete flag: the matcher applies the documented rule to it (shared with C14.b)
     _cm18.import_clauses(ctx, res, 'C14', ['C14.b'], 'C18', 'C18.i', 'R-DECISION', 'the metadata matcher decides `[False, None]` by the documented rules', floor=4)
+    from . import common as _r7
+    _r7.import_clauses(ctx, res, 'C04', ['C04.d'], 'C18', 'C18.j', 'R-CONTAIN', 'framework steps around the operation do not replace its outcome (exception flag / incomplete flag describe the operation)', floor=1)
     return res
 
 
